@@ -906,8 +906,18 @@ def _snapshot(o):
         bufs = [(_digest("dok", items), ())]
         meta = ("DOK", tuple(o.shape), str(o.dtype), np.asarray(o.fill_value).tobytes())
     elif ss.issparse(o):
-        bufs = [_snap_arr(o.data), _snap_arr(o.indices), _snap_arr(o.indptr)]
-        meta = (o.format, tuple(o.shape), str(o.dtype))
+        # a scipy operand: its storage, not only its value (toarray() survives a sum_duplicates() in place)
+        if o.format == "coo":
+            bufs = [_snap_arr(o.data), _snap_arr(o.row), _snap_arr(o.col)]
+            flags = (bool(getattr(o, "has_canonical_format", False)),)
+        elif o.format in ("csr", "csc", "bsr"):
+            bufs = [_snap_arr(o.data), _snap_arr(o.indices), _snap_arr(o.indptr)]
+            flags = (bool(o.has_sorted_indices), bool(o.has_canonical_format))
+        else:
+            c = o.tocoo()
+            bufs = [_snap_arr(c.data), _snap_arr(c.row), _snap_arr(c.col)]
+            flags = ()
+        meta = (type(o).__name__, o.format, tuple(o.shape), str(o.dtype), int(o.nnz), flags)
     elif isinstance(o, (list, tuple)):
         bufs = []
         meta = [type(o).__name__, len(o)]
@@ -1140,10 +1150,163 @@ def _ops_table():
     return T
 
 
-def impl_snap(case):
-    """case = dict(op, fmt, shape, fill, seed, share, floaty) -> digests before/after"""
+def _scribble(res):
+    """write into every writeable dense array of a result (a caller post-processing ITS OWN result in place);
+    returns how many arrays were written"""
+    import numpy as np
+    n = 0
+    if isinstance(res, np.ndarray):
+        if res.size and res.flags.writeable and res.dtype.kind in "biufc":
+            if res.dtype.kind == "b":
+                np.logical_not(res, out=res)
+            else:
+                np.add(res, 1, out=res, casting="unsafe")
+            n += 1
+    elif isinstance(res, (tuple, list)):
+        for e in res:
+            n += _scribble(e)
+    elif isinstance(res, dict):
+        for e in res.values():
+            n += _scribble(e)
+    return n
+
+
+def _mk_scipy(rng, fmt, state, shape, as_array, floaty):
+    """a scipy.sparse operand built directly on caller-owned arrays, in one of four storage states:
+    canonical | unsorted (indices of some row out of order) | sorted-dup (sorted, one position stored twice,
+    adjacent) | unsorted-dup.  Returns (matrix, [the caller's arrays])"""
+    import numpy as np
+    import scipy.sparse as ss
+    n, m = shape
+    dense = np.zeros(shape, dtype=np.float64 if floaty else np.int64)
+    mask = rng.random(shape) < 0.7
+    mask[0, : min(2, m)] = True                     # a row/column with at least two stored elements
+    mask[: min(2, n), 0] = True
+    dense[mask] = rng.integers(1, 7, size=int(mask.sum()))
+    major = dense if fmt != "csc" else dense.T      # rows of `major` are the compressed lines
+    rows, cols, vals = [], [], []
+    for i in range(major.shape[0]):
+        js = [int(j) for j in np.nonzero(major[i])[0]]
+        vs = [major[i, j] for j in js]
+        if i == 0 and "dup" in state and js:
+            # store the first position twice (adjacent): value split in two
+            js = [js[0]] + js
+            vs = [vs[0] - 1, 1] + vs[1:]
+        if "unsorted" in state and len(js) >= 2:
+            js, vs = js[::-1], vs[::-1]
+        rows += [i] * len(js)
+        cols += js
+        vals += vs
+    data = np.array(vals, dtype=dense.dtype)
+    if fmt == "coo":
+        r, c = np.array(rows, dtype=np.int32), np.array(cols, dtype=np.int32)
+        cls = ss.coo_array if as_array else ss.coo_matrix
+        x = cls((data, (r, c)), shape=shape)
+        return x, [data, r, c]
+    indices = np.array(cols, dtype=np.int32)
+    indptr = np.zeros(major.shape[0] + 1, dtype=np.int32)
+    np.cumsum(np.bincount(np.array(rows, dtype=np.int64), minlength=major.shape[0]), out=indptr[1:])
+    cls = {("csr", False): ss.csr_matrix, ("csr", True): ss.csr_array,
+           ("csc", False): ss.csc_matrix, ("csc", True): ss.csc_array}[(fmt, as_array)]
+    x = cls((data, indices, indptr), shape=shape)
+    return x, [data, indices, indptr]
+
+
+def _scipy_ops():
+    """operations that accept a scipy.sparse operand: name -> f(sp, c, d) with c a COO of sp's shape and d a COO
+    whose first extent is sp's last (for products)"""
     import numpy as np
     import sparse
+    from sparse.numba_backend._compressed.compressed import CSC, CSR
+    return {
+        "dot(sp, d)": lambda sp, c, d: sparse.dot(sp, d),
+        "dot(sp, dense)": lambda sp, c, d: sparse.dot(sp, d.todense()),
+        "dot(c.T, sp)": lambda sp, c, d: sparse.dot(c.T, sp),
+        "dot(dense, sp)": lambda sp, c, d: sparse.dot(c.T.todense(), sp),
+        "matmul(sp, d)": lambda sp, c, d: sparse.matmul(sp, d),
+        "matmul(c.T, sp)": lambda sp, c, d: sparse.matmul(c.T, sp),
+        "tensordot(sp, d)": lambda sp, c, d: sparse.tensordot(sp, d, axes=1),
+        "tensordot(c, sp)": lambda sp, c, d: sparse.tensordot(c, sp, axes=((0, 1), (0, 1))),
+        "c.T @ sp": lambda sp, c, d: c.T @ sp,
+        "sp @ d": lambda sp, c, d: sp @ d,
+        "gcxs(c.T) @ sp": lambda sp, c, d: c.T.asformat("gcxs") @ sp,
+        "asarray(sp)": lambda sp, c, d: sparse.asarray(sp),
+        "asarray(sp, gcxs)": lambda sp, c, d: sparse.asarray(sp, format="gcxs"),
+        "asarray(sp, coo)": lambda sp, c, d: sparse.asarray(sp, format="coo"),
+        "asarray(sp, dok)": lambda sp, c, d: sparse.asarray(sp, format="dok"),
+        "GCXS(sp)": lambda sp, c, d: sparse.GCXS(sp),
+        "GCXS.from_scipy_sparse": lambda sp, c, d: sparse.GCXS.from_scipy_sparse(sp),
+        "CSR.from_scipy_sparse": lambda sp, c, d: CSR.from_scipy_sparse(sp),
+        "CSC.from_scipy_sparse": lambda sp, c, d: CSC.from_scipy_sparse(sp),
+        "CSR(sp)": lambda sp, c, d: CSR(sp),
+        "CSC(sp)": lambda sp, c, d: CSC(sp),
+        "COO.from_scipy_sparse": lambda sp, c, d: sparse.COO.from_scipy_sparse(sp),
+        "COO(sp)": lambda sp, c, d: sparse.COO(sp),
+        "DOK.from_scipy_sparse": lambda sp, c, d: sparse.DOK.from_scipy_sparse(sp),
+        "DOK(sp)": lambda sp, c, d: sparse.DOK(sp),
+        "as_coo(sp)": lambda sp, c, d: sparse.as_coo(sp),
+        "c + sp": lambda sp, c, d: c + sp,
+        "sp + c": lambda sp, c, d: sp + c,
+        "c * sp": lambda sp, c, d: c * sp,
+        "elemwise(add)": lambda sp, c, d: sparse.elemwise(np.add, c, sp),
+        "np.maximum(c, sp)": lambda sp, c, d: np.maximum(c, sp),
+        "where": lambda sp, c, d: sparse.where(c > 1, sp, c),
+        "concatenate": lambda sp, c, d: sparse.concatenate([sp, c], axis=0),
+        "stack": lambda sp, c, d: sparse.stack([c, sp]),
+        "kron": lambda sp, c, d: sparse.kron(sp, d),
+        "sum(sp)": lambda sp, c, d: sparse.sum(sp, axis=0),
+        "nansum(sp)": lambda sp, c, d: sparse.nansum(sp),
+        "argmax(sp)": lambda sp, c, d: sparse.argmax(sp, axis=0),
+        "sort(sp)": lambda sp, c, d: sparse.sort(sp),
+        "unique_values(sp)": lambda sp, c, d: sparse.unique_values(sp),
+        "flip(sp)": lambda sp, c, d: sparse.flip(sp, axis=0),
+        "roll(sp)": lambda sp, c, d: sparse.roll(sp, 1, axis=0),
+        "triu(sp)": lambda sp, c, d: sparse.triu(sp),
+        "diagonal(sp)": lambda sp, c, d: sparse.diagonal(sp),
+        "transpose(sp)": lambda sp, c, d: sparse.permute_dims(sp, (1, 0)),
+        "reshape(sp)": lambda sp, c, d: sparse.reshape(sp, (-1,)),
+        "squeeze(sp)": lambda sp, c, d: sparse.squeeze(sparse.expand_dims(sp, axis=0), 0),
+        "isnan(sp)": lambda sp, c, d: sparse.isnan(sp),
+        "astype(sp)": lambda sp, c, d: sparse.astype(sp, np.float32),
+        "einsum": lambda sp, c, d: sparse.einsum("ij,jk->ik", sp, d),
+        "pad(sp)": lambda sp, c, d: sparse.pad(sp, 1),
+        "save_npz": lambda sp, c, d: sparse.save_npz(__import__("io").BytesIO(), sp),
+        "result_type": lambda sp, c, d: sparse.result_type(sp, c),
+        "asnumpy(sp)": lambda sp, c, d: sparse.asnumpy(sp),
+    }
+
+
+def _impl_snap_scipy(case):
+    import numpy as np
+    import sparse
+    rng = np.random.default_rng(case["seed"])
+    sc = case["scipy"]
+    sp, arrays = _mk_scipy(rng, sc["fmt"], sc["state"], tuple(case["shape"]), sc["as_array"], case["floaty"])
+    n, m = case["shape"]
+    c = sparse.COO.from_numpy(_rand_dense(rng, (n, m), 0, 0.5, case["floaty"], False))
+    d = sparse.COO.from_numpy(_rand_dense(rng, (m, 2), 0, 0.6, case["floaty"], False))
+    operands = [sp] + arrays + [c, d]
+    before = [_snapshot(o) for o in operands]
+    exc, res = None, None
+    try:
+        with np.errstate(all="ignore"):
+            res = _scipy_ops()[case["op"]](sp, c, d)
+    except Exception as ex:  # noqa: BLE001
+        exc = type(ex).__name__
+    after = [_snapshot(o) for o in operands]
+    wrote = _scribble(res)
+    after_write = [_snapshot(o) for o in operands]
+    return {"before": before, "after": after, "after_write": after_write, "wrote": wrote, "exc": exc,
+            "n_operands": len(operands)}
+
+
+def impl_snap(case):
+    """case = dict(op, fmt, shape, fill, seed, share, floaty) -> digests before / after the call / after the caller
+    has written into every dense array of the result"""
+    import numpy as np
+    import sparse
+    if case.get("scipy"):
+        return _impl_snap_scipy(case)
     rng = np.random.default_rng(case["seed"])
     T = _ops_table()
     arity, f = T[case["op"]]
@@ -1194,15 +1357,18 @@ def impl_snap(case):
             y = x
         operands.append(y)
     before = [_snapshot(o) for o in operands]
-    exc = None
+    exc, res = None, None
     try:
         with np.errstate(all="ignore"):
             res = f(x, rng) if arity == 1 else f(x, y, rng)
-        del res
     except Exception as ex:  # noqa: BLE001
         exc = type(ex).__name__
     after = [_snapshot(o) for o in operands]
-    return {"before": before, "after": after, "exc": exc, "n_operands": len(operands)}
+    # dense results are documented as new arrays: the caller may post-process them in place
+    wrote = _scribble(res) if not any(res is o for o in operands) else 0
+    after_write = [_snapshot(o) for o in operands]
+    return {"before": before, "after": after, "after_write": after_write, "wrote": wrote, "exc": exc,
+            "n_operands": len(operands)}
 
 
 def snap_cases(tier, seed, budget):
@@ -1230,9 +1396,26 @@ def snap_cases(tier, seed, budget):
                               "floaty": op.startswith("nan") or rng.random() < 0.25,
                               "fmt2": rng.choice(fmts),
                               "pattern": rng.choice(["random", "random", "random", "one-per-row", "one-per-col",
-                                                     "diagonal", "full", "empty", "single"]),
+                                                     "diagonal", "full", "full", "empty", "single"]),
                               "negative": rng.random() < 0.35})
+    # scipy.sparse operands through every entry point that accepts them
+    sreps = (1 if tier == "quick" else 3) * budget
+    for op in sorted(_scipy_op_names()):
+        for sfmt in ("csr", "csc", "coo"):
+            for state in ("canonical", "unsorted", "sorted-dup", "unsorted-dup"):
+                for _ in range(sreps):
+                    cases.append({"op": op, "fmt": "scipy-" + sfmt, "shape": list(rng.choice([(2, 3), (3, 3), (3, 4), (4, 2)])),
+                                  "fill": 0, "seed": rng.randrange(1 << 30), "share": "scipy-" + state,
+                                  "floaty": rng.random() < 0.5, "pattern": "scipy", "negative": False,
+                                  "scipy": {"fmt": sfmt, "state": state, "as_array": rng.random() < 0.5}})
     return cases
+
+
+def _scipy_op_names():
+    import sys
+    if vlib.REPO not in sys.path:
+        sys.path.insert(0, vlib.REPO)
+    return list(_scipy_ops().keys())
 
 
 def _ops_table_names():
@@ -1266,15 +1449,26 @@ def campaign_snap(build, tier, seed, report, budget):
                          "impl": r, "what": "snapshot runner failed", "replay_py": _replay_line("impl_snap", c)})
             continue
         lits.append(vpair(vlist(r["before"], sn), vlist(r["after"], sn)))
-        idx.append(i)
+        idx.append((i, "call"))
+        if r.get("wrote"):
+            lits.append(vpair(vlist(r["before"], sn), vlist(r["after_write"], sn)))
+            idx.append((i, "write-into-result"))
+            tags["dense result written into"] = tags.get("dense result written into", 0) + 1
         key = f"{c['fmt']}/{c['share']}/{'raised' if r['exc'] else 'ok'}"
         tags["pattern:" + c["pattern"]] = tags.get("pattern:" + c["pattern"], 0) + 1
         tags[key] = tags.get(key, 0) + 1
     bad = build.judge("c11_snap", "From Verif Require Import C11Judge.", "snap_case", "judge_snap", lits, chunk=500)
+    seen_pairs = set()
     for k, code in bad:
-        i = idx[k]
+        i, phase = idx[k]
+        if (i, "call") in seen_pairs:
+            continue                 # already reported for the call itself
+        seen_pairs.add((i, phase))
+        what = SNAP_CODES.get(code, str(code))
+        if phase == "write-into-result":
+            what = ("the dense result shares a buffer with an operand: after the caller wrote into the result, " + what)
         viol.append({"property": "C11", "op": cases[i]["op"], "kind": "value", "clause": None, "code": code,
-                     "what": SNAP_CODES.get(code, str(code)), "format": cases[i]["fmt"], "case": cases[i],
+                     "phase": phase, "what": what, "format": cases[i]["fmt"], "case": cases[i],
                      "impl": res[i], "replay_py": _replay_line("impl_snap", cases[i])})
     cov = report["coverage"]
     cov["snap_cases"] = len(cases)
